@@ -25,7 +25,9 @@ def etag_property(key, default, rfc_section, strong=True):
 
     def fset(req, val):
         if val is None:
-            req.environ[key] = None
+            # like every other header attribute: no value, no header (a
+            # stored None would be listed as the header text "None")
+            req.environ.pop(key, None)
         else:
             req.environ[key] = str(val)
 
